@@ -418,7 +418,9 @@ func VerifH_C16_order_insensitive() {
 			},
 			outputs: map[string]any{
 				"success": map[any]any{"r": vx("steps", "c", "outputs", "success", "v")},
-				"error":   map[any]any{"e": vx("steps", "b", "outputs", "error")},
+				"error": map[any]any{"e": vx("steps", "b", "outputs", "error"),
+					"w": &infer.OptionalExpression{Expr: vx("steps", "d", "outputs", "success", "v")},
+					"n": map[any]any{"k": vx("input"), "o": &infer.OptionalExpression{Expr: vx("steps", "a", "outputs", "error", "v")}}},
 			},
 		}
 	}
@@ -477,6 +479,42 @@ func VerifH_C16_order_insensitive() {
 	sort.Strings(ids0)
 	sort.Strings(ids1)
 	verifrt.Assert(strings.Join(ids0, ",") == strings.Join(ids1, ","), "the output schemas do not depend on map iteration order")
+	s0, s1 := verifSchemaCanon(ew0.OutputSchema()), verifSchemaCanon(ew1.OutputSchema())
+	verifrt.Assert(strings.Join(s0, ";") == strings.Join(s1, ";"), "the inferred output schemas (property names, types, required flags) do not depend on map iteration order")
+	verifrt.Assert(strings.Contains(strings.Join(s0, ";"), "?") && strings.Contains(strings.Join(s0, ";"), "!"), "harness: the template's outputs mix optional and required properties")
+}
+
+// verifSchemaCanon describes output schemas by their sorted property paths: "<output>.<path>:<type id><!|?>"
+// ('!' required, '?' optional), descending into objects.
+func verifSchemaCanon(outs map[string]*schema.StepOutputSchema) []string {
+	var res []string
+	var walk func(prefix string, props map[string]*schema.PropertySchema, depth int)
+	walk = func(prefix string, props map[string]*schema.PropertySchema, depth int) {
+		for name, p := range props {
+			flag := "?"
+			if p.Required() {
+				flag = "!"
+			}
+			res = append(res, prefix+"."+name+":"+string(p.TypeID())+flag)
+			if depth < 4 {
+				switch t := p.Type().(type) {
+				case *schema.ObjectSchema:
+					walk(prefix+"."+name, t.Properties(), depth+1)
+				case *schema.ScopeSchema:
+					walk(prefix+"."+name, t.Properties(), depth+1)
+				}
+			}
+		}
+	}
+	for id, o := range outs {
+		if ss, ok := o.Schema().(*schema.ScopeSchema); ok {
+			walk(id, ss.Properties(), 0)
+		} else {
+			res = append(res, id+":opaque")
+		}
+	}
+	sort.Strings(res)
+	return res
 }
 
 // C10: an expression with several references gets a dependency for each of them, also when one of
